@@ -5,15 +5,17 @@
  * denormals and +-inf are in the domain; double likewise with 64 bits (tier=thorough).  Classification on the specification
  * side is done on the bit pattern (NAN_/INF_/SIGN_), independently of both tetl and CBMC's library; values are compared by
  * bit pattern, NaN as a class.  The specification of a function is CBMC's IEEE-754 model of the C library function
- * (floorf, ceilf, truncf, roundf, rintf, lrintf, copysignf, fabsf, fminf, fmaxf, fdimf, fmaf); fmod/remainder have no usable
- * model in CBMC 6.11 (floatbv_mod / 128-bit round_to_integral are not implemented by the SAT back end): their specification
- * is the bit-level long division s_fmod_f below.
+ * (floorf, ceilf, truncf, roundf, rintf, lrintf, copysignf, fabsf, fminf, fmaxf, fdimf).  fmod/remainder/fma have no usable
+ * model in CBMC 6.11 (floatbv_mod and the 128-bit round_to_integral are not implemented by the SAT back end, floatbv_fma is
+ * wrong for a zero product): fmod/remainder are specified by the bit-level long division s_fmodrem_f below (cross-checked
+ * against glibc on 4*10^7 random and structured pairs), float fma by an exact double / round-to-odd construction
+ * (prelude_extra.h).
  *
  * vf_ce = 1 selects the constant-evaluated (gcem / portable fallback) path, vf_ce = 0 the run-time path (compiler builtin,
  * bound to the same CBMC model in cxx2c_prelude.h / prelude_extra.h).
  *
  * Not in tetl (nothing to verify): nearbyint lround llround isnormal fpclassify ilogb logb frexp ldexp scalbn modf.
- * Not lowered: nextafter (etl::bit_cast -> __builtin_bit_cast: cxx2c UNSUPPORTED LValueToRValueBitCast). */
+ * nexttoward does not exist in tetl. */
 #include "prelude_extra.h"
 typedef unsigned u32; typedef unsigned long long u64;
 static float  mk_f(u32 b) { union { u32 u; float f; } c; c.u = b; return c.f; }
@@ -222,6 +224,25 @@ S_FMOD_DEF(double, d, u64, 53, 11, 1023, 0x7ff8000000000000ull)
 /* A multiple of y has to be subtracted: bounded stand-in (normal operands, quotient below 8; the bit-level reference then needs
  * at most 4 division steps).  Only the quotient-1 band is right in general (x - y is exact, Sterbenz). */
 #define REDUCE_WIN_f (x_bits << 1 >= 0x01000000u && y_bits << 1 >= 0x01000000u && FMOD_DOM_f && (double)ABS_f(x) < 8 * (double)ABS_f(y))
+/* ---- nextafter (single source path): successor / predecessor on the IEEE-754 encoding, written on sign and magnitude:
+ *      a NaN argument -> NaN; x == y (incl. +0 == -0) -> y; from +-0 -> the smallest subnormal with the sign of y; otherwise the
+ *      magnitude field moves by one (up when x moves away from zero: max -> inf; down otherwise: min subnormal -> zero of x's sign,
+ *      inf -> max).  Cross-checked against glibc nextafterf/nextafter on 2.5*10^7 random and boundary pairs. */
+#define S_NEXT_DEF(T, S, U, SB, QNAN) \
+  static T s_nextafter_##S(T x, T y) { U bx = bits_##S(x), by = bits_##S(y); U mx = bx & ~(U)SB, my = by & ~(U)SB; \
+    if (NAN_##S(x) || NAN_##S(y)) return mk_##S(QNAN); \
+    int sx = (bx & SB) != 0, sy = (by & SB) != 0; \
+    if ((mx == 0 && my == 0) || bx == by) return y; \
+    if (mx == 0) return mk_##S((by & SB) | 1u); \
+    int lt = sx != sy ? sx : (sx ? mx > my : mx < my); /* x < y */ \
+    return mk_##S(lt == !sx ? bx + 1 : bx - 1); }
+S_NEXT_DEF(float, f, u32, 0x80000000u, 0x7fc00000u)
+S_NEXT_DEF(double, d, u64, 0x8000000000000000ull, 0x7ff8000000000000ull)
+#define B_NEXTAFTER(T, S, KNOWN) { IN_##S(x); IN_##S(y); CE(); KNOWN; \
+  T r = nextafter_##S(x, y); T e = s_nextafter_##S(x, y); \
+  VF_ASSERT(SAME_##S(r, e), "C16: nextafter(" #T ") is the neighbour of x in the direction of y on the IEEE-754 encoding (C 7.12.11.3): y if x == y, NaN for a NaN argument, +-min subnormal from +-0, inf beyond max"); \
+  VF_REACH(); }
+
 #define CE() VF_INPUT_BOOL(ce); vf_ce = ce
 
 /*@GROUP name=floor_f props=C16,C13,C02 kind=F@*/
@@ -275,16 +296,19 @@ void h_midpoint_f(void) B_MIDPOINT(float, f, (void)0)
 /*@GROUP name=midpoint_sym_f props=C16,C02 kind=F@*/
 void h_midpoint_sym_f(void) B_MIDPOINT_SYM(float, f, (void)0)
 
+/*@GROUP name=nextafter_f props=C16,C02 kind=F@*/
+void h_nextafter_f(void) B_NEXTAFTER(float, f, VF_KNOWN(C16_nextafter_nan, (NAN_f(y) && !NAN_f(x)) || (NAN_f(x) && (x_bits == 0x7fffffffu || (x_bits & ~0x80000000u) == 0x7f800001u))); VF_KNOWN(C16_nextafter_pos_toward_neg, !NAN_f(x) && !NAN_f(y) && !SIGN_f(x) && SIGN_f(y)); VF_KNOWN(C16_nextafter_neg_zero_up, x_bits == 0x80000000u && !NAN_f(y) && !SIGN_f(y)))
+
 /*@GROUP name=fmod_f props=C16,C02 kind=F@*/
 void h_fmod_f(void) B_FMOD_SPECIAL(fmod, float, f, VF_KNOWN(C16_fmod_inf_divisor, INF_f(y) && FIN_f(x)); VF_KNOWN(C16_fmod_neg_zero, FMOD_DOM_f && x_bits == 0x80000000u))
 
 /*@GROUP name=remainder_f props=C16,C02 kind=F@*/
 void h_remainder_f(void) B_FMOD_SPECIAL(remainder, float, f, VF_KNOWN(C16_fmod_inf_divisor, INF_f(y) && FIN_f(x)); VF_KNOWN(C16_fmod_neg_zero, FMOD_DOM_f && x_bits == 0x80000000u))
 
-/*@GROUP name=fmod_small_f props=C16,C02 kind=S split=VF_CELL:0:23 qsplit=0,1,12 solver=kissat timeout=600@*/
+/*@GROUP name=fmod_small_f props=C16,C02 kind=S split=VF_CELL:0:23 qsplit=0,1,4 solver=kissat timeout=600@*/
 void h_fmod_small_f(void) B_FMOD_SMALL(fmod, float, f, __CPROVER_assume(FMOD_DOM_f && !ZERO_f(x) && ABS_f(x) < ABS_f(y) && SMALL_CELL_f); VF_KNOWN(C16_gcem_tiny_as_integral, QTINY_f))
 
-/*@GROUP name=remainder_small_f props=C16,C02 kind=S split=VF_CELL:0:23 qsplit=0,1,12 solver=kissat timeout=600@*/
+/*@GROUP name=remainder_small_f props=C16,C02 kind=S split=VF_CELL:0:23 qsplit=0,1,4 solver=kissat timeout=600@*/
 void h_remainder_small_f(void) B_FMOD_SMALL(remainder, float, f, __CPROVER_assume(FMOD_DOM_f && !ZERO_f(x) && 2 * ABS_f(x) <= ABS_f(y) && SMALL_CELL_f); VF_KNOWN(C16_gcem_tiny_as_integral, QTINY_f))
 
 /*@GROUP name=fmod_reduce_f props=C16,C02 kind=B bound=normal-operands,|y|<=|x|<8|y| unwind=26 solver=kissat timeout=300@*/
@@ -353,3 +377,6 @@ void h_fmod_d(void) B_FMOD_SPECIAL(fmod, double, d, VF_KNOWN(C16_fmod_inf_diviso
 
 /*@GROUP name=remainder_d props=C16,C02 kind=F tier=thorough timeout=600@*/
 void h_remainder_d(void) B_FMOD_SPECIAL(remainder, double, d, VF_KNOWN(C16_fmod_inf_divisor, INF_d(y) && FIN_d(x)); VF_KNOWN(C16_fmod_neg_zero, FMOD_DOM_d && x_bits == 0x8000000000000000ull))
+
+/*@GROUP name=nextafter_d props=C16,C02 kind=F tier=thorough timeout=600@*/
+void h_nextafter_d(void) B_NEXTAFTER(double, d, VF_KNOWN(C16_nextafter_nan, (NAN_d(y) && !NAN_d(x)) || (NAN_d(x) && (x_bits == 0x7fffffffffffffffull || (x_bits & ~0x8000000000000000ull) == 0x7ff0000000000001ull))); VF_KNOWN(C16_nextafter_pos_toward_neg, !NAN_d(x) && !NAN_d(y) && !SIGN_d(x) && SIGN_d(y)); VF_KNOWN(C16_nextafter_neg_zero_up, x_bits == 0x8000000000000000ull && !NAN_d(y) && !SIGN_d(y)))
